@@ -3,7 +3,7 @@ import glob, os
 
 REPO = os.environ.get("VERIF_REPO", "/repo")
 VERIF = os.path.dirname(os.path.dirname(os.path.abspath(__file__)))
-BUILD = os.path.join(VERIF, "build")
+BUILD = os.environ.get("VERIF_BUILD", os.path.join(VERIF, "build"))
 
 INC_DIRS = [
     "lib/texellib", "lib/texellib/book", "lib/texellib/debug", "lib/texellib/hw",
